@@ -296,8 +296,8 @@ M('k11f-integer-returns-text', ['C11', 'C12'], 'habutax/inputs.py', "        if 
 M('k11f-enum-members-table', ['C11', 'C12'], 'habutax/inputs.py', "        return self.enum[string]\n", "        return self.enum.__members__[string]\n", None, 'member looked up in the members table', 'silent')
 
 # ------------------------------------------------------------------ R8.5 (amounts printed per filing status on the template)
-M('r85-2021-8812-33-hoh', ['C08'], Y21 + 'f1040_s8812.py', "            elif i['1040.filing_status'] is filing_status.HeadOfHousehold:\n                return 50000.0\n", "            elif i['1040.filing_status'] is filing_status.HeadOfHousehold:\n                return 40000.0\n", 'R8.5', '2021 Schedule 8812 line 33 for head of household differs from the amount printed in the box')
-M('r85-2023-8812-9-qss', ['C08'], Y23 + 'f1040_s8812.py', "                filing_status.MarriedFilingJointly: 400000.0,\n                (filing_status.Single, filing_status.MarriedFilingSeparately,\n                 filing_status.QualifyingSurvivingSpouse,\n", "                (filing_status.MarriedFilingJointly, filing_status.QualifyingSurvivingSpouse): 400000.0,\n                (filing_status.Single, filing_status.MarriedFilingSeparately,\n", None, 'qualifying surviving spouse moved to the joint phase-out threshold; the box prints 200,000 for all other statuses')
+M('r85-2021-8812-33-hoh', ['C08', 'C02'], Y21 + 'f1040_s8812.py', "            elif i['1040.filing_status'] is filing_status.HeadOfHousehold:\n                return 50000.0\n", "            elif i['1040.filing_status'] is filing_status.HeadOfHousehold:\n                return 40000.0\n", None, '2021 Schedule 8812 line 33 for head of household differs from the amount printed in the box')
+M('r85-2023-8812-9-qss', ['C08', 'C02'], Y23 + 'f1040_s8812.py', "                filing_status.MarriedFilingJointly: 400000.0,\n                (filing_status.Single, filing_status.MarriedFilingSeparately,\n                 filing_status.QualifyingSurvivingSpouse,\n", "                (filing_status.MarriedFilingJointly, filing_status.QualifyingSurvivingSpouse): 400000.0,\n                (filing_status.Single, filing_status.MarriedFilingSeparately,\n", None, 'qualifying surviving spouse moved to the joint phase-out threshold; the box prints 200,000 for all other statuses')
 
 # ------------------------------------------------------------------ K27 (the failure report names every item)
 M('k27-report-first-six', ['C01', 'C05'], CLI, "                print(f'{dependency} (needed by: {\", \".join(dependents)})')\n        if len(unmet_field_dependencies) > 0:", "                print(f'{dependency} (needed by: {\", \".join(dependents[:6])})')\n        if len(unmet_field_dependencies) > 0:", 'K27', 'only the first six waiting lines are named: which six depends on the attempt order (seed C05-D)')
